@@ -330,6 +330,49 @@ def build_storage_unit(cfg, n, outdir, extra_sidecar=None, tail_text=None, unit=
 
 # ---------------------------------------------------------------- macros crate unit (C15, C05)
 
+def rule_continue(text, log):
+    """R-continue: Verus' for-loops do not support `continue`.  `if C { continue; } REST` (REST = the remainder of the loop body)
+    -> `if C { } else { REST }`.  Only applied when `continue;` is the sole statement of its block; anything else is an error."""
+    while True:
+        msk = rs.mask(text)
+        m = re.search(r'\bcontinue\s*;', msk)
+        if not m:
+            return text
+        # enclosing block of the continue
+        depth = 0
+        i = m.start()
+        while i >= 0:
+            if msk[i] == '}':
+                depth += 1
+            elif msk[i] == '{':
+                if depth == 0:
+                    break
+                depth -= 1
+            i -= 1
+        b_open = i
+        b_close = rs.match_close(msk, b_open)
+        if msk[b_open + 1:b_close].strip() != msk[m.start():m.end()].strip():
+            raise ExtractError('R-continue: `continue` is not the only statement of its block')
+        # enclosing block of the `if`
+        depth = 0
+        i = b_open - 1
+        while i >= 0:
+            if msk[i] == '}':
+                depth += 1
+            elif msk[i] == '{':
+                if depth == 0:
+                    break
+                depth -= 1
+            i -= 1
+        l_open = i
+        l_close = rs.match_close(msk, l_open)
+        inner = text[b_open + 1:b_close]
+        blanked = re.sub(r'continue\s*;', '', inner)
+        text = (text[:b_open + 1] + blanked + text[b_close:b_close + 1] + ' else {' + text[b_close + 1:l_close] + '}\n' + text[l_close:])
+        log.rule('R-continue')
+
+
+
 def extract_items(rel, fid, items):
     """Marked text of the listed items of a repo file, in the given order."""
     raw = add_markers(read_repo(rel), fid)
@@ -412,6 +455,7 @@ def build_macros_unit(cfg, n, outdir):
         text = rule_debug_assert(text, cfg, rel, table, log)
         text = rule_panic(text, rel, table, log)
         text = rule_regex(text, log, 'R-vis', r'\bpub\((?:crate|super)\)', 'pub')
+        text = rule_continue(text, log)
         fspec = sc.files.get(rel) or sidecar.FileSpec(rel)
         text, _ = apply_contracts(text, fspec, log, rel, None)
         body.append('// ======== %s\n' % rel + text)
